@@ -299,7 +299,7 @@ Proof. reflexivity. Qed.
 Theorem transition_log d i s e t s1 cur nxt s2 s3 k :
   initialized s = true -> f_state s = Some cur ->
   resolve_event d i s e t = (s1, Ok (Some nxt)) ->
-  run_exit i s1 cur t = (s2, None) -> f_next s2 = None ->
+  run_exit i s1 cur t = (s2, None) -> str_mem cur (i_on_exit_bad i) = false -> f_next s2 = None ->
   run_enter d i (st_state (st_log s2 (if str_mem cur (i_on_exit i) then [LOnExit cur (f_out s2)] else [])) nxt)
             nxt t = (s3, None) ->
   f_next s3 = None -> assoc nxt (fd_timed d) = None -> chain_limit d = S k ->
@@ -311,11 +311,11 @@ Theorem transition_log d i s e t s1 cur nxt s2 s3 k :
       ++ (if str_mem nxt (i_on_enter i)
           then [LOnEnter nxt (if py_eq (f_out s3) (calc_out i s3 nxt) then f_out s3 else calc_out i s3 nxt)] else []).
 Proof.
-  intros Hi Hs Hr Hx Hn2 He Hn Ht Hl Hs3.
+  intros Hi Hs Hr Hx Hbad Hn2 He Hn Ht Hl Hs3.
   destruct (resolve_event_frame _ _ _ _ _ _ _ Hr) as (l & (Hst & Hout & _ & _ & _) & _).
   unfold fsm_event. rewrite Hr.
   assert (Hi1 : initialized s1 = true) by (unfold initialized in *; now rewrite Hout).
-  rewrite Hi1, Hst, Hs, Hx. cbn [f_next st_log]. rewrite Hn2, Hl. simpl. rewrite He, Hn, Ht. rewrite Hs3.
+  rewrite Hi1, Hst, Hs, Hx, Hbad. cbn [f_next st_log]. rewrite Hn2, Hl. simpl. rewrite He, Hn, Ht. rewrite Hs3.
   eexists. split; [reflexivity|].
   destruct (py_eq (f_out s3) (calc_out i s3 nxt)) eqn:Ep; simpl.
   - repeat split; try reflexivity; try exact Hs3.
